@@ -346,3 +346,74 @@ impl Ctx {
         }
     }
 }
+
+// ---- structural tie: the cursor primitives are the only readers of the lexer -------------------------
+
+const LEXER_READERS: &[&str] = &[
+    "parse_with_options", // constructs the lexer
+    "consume_token",
+    "peek_token_n",
+    "peek_span",
+    "peek_token_with_context",
+    "consume_until_token_with_context",
+    "peek_next_token_on_same_line_with_span",
+];
+const CURRENT_TOKEN_FIELDS: &[&str] = &[".slice(", ".source_bytes", ".span", ".indent", ".token", " = next"];
+
+impl Ctx {
+    /// Re-checks on every run what Props/C10.lean takes from inspection: every `self.lexer` use in
+    /// parser.rs sits inside a modelled primitive, and `current_token` is only read for its text,
+    /// byte range, span, indent and kind.
+    fn interface_check(&mut self) {
+        let path = "/repo/crates/parser/src/parser.rs";
+        let Ok(src) = std::fs::read_to_string(path) else {
+            self.fail("K", "K:C10:cursor-interface", json!({"note": "cannot read parser.rs", "input": path}));
+            return;
+        };
+        let mut func = String::new();
+        let mut in_verif = false;
+        let mut lexer_uses = 0;
+        let mut cur_uses = 0;
+        for (n, line) in src.lines().enumerate() {
+            let t = line.trim_start();
+            if t.starts_with("pub mod verif") {
+                in_verif = true;
+            }
+            if in_verif || t.starts_with("//") {
+                continue;
+            }
+            if let Some(rest) = t.strip_prefix("fn ").or_else(|| t.strip_prefix("pub fn ")) {
+                func = rest.chars().take_while(|c| c.is_alphanumeric() || *c == '_').collect();
+            }
+            if t.contains("self.lexer") || t.starts_with("lexer:") {
+                lexer_uses += 1;
+                if !LEXER_READERS.contains(&func.as_str()) && !t.starts_with("lexer: Lexer<") {
+                    self.fail(
+                        "K",
+                        "K:C10:cursor-interface",
+                        json!({"input": line, "line": n + 1, "function": func,
+                               "note": "parser.rs reads the lexer outside the modelled cursor primitives: Model/Cursor.lean no longer covers every way the parser observes tokens"}),
+                    );
+                }
+            }
+            if let Some(p) = t.find("self.current_token") {
+                cur_uses += 1;
+                let after = &t[p + "self.current_token".len()..];
+                let ok = CURRENT_TOKEN_FIELDS.iter().any(|f| after.starts_with(f)) || after.starts_with(',') || after.starts_with(')');
+                if !ok {
+                    self.fail(
+                        "K",
+                        "K:C10:cursor-interface",
+                        json!({"input": line, "line": n + 1, "function": func, "note": "unexpected use of current_token"}),
+                    );
+                }
+            }
+        }
+        self.checked += (lexer_uses + cur_uses) as u64;
+        self.rep.bump_by("interface_check:lexer_uses", lexer_uses as u64);
+        self.rep.bump_by("interface_check:current_token_uses", cur_uses as u64);
+        if lexer_uses < 6 {
+            self.fail("K", "K:C10:cursor-interface", json!({"input": path, "note": "fewer lexer uses found than primitives exist: the source shape changed, the check is stale"}));
+        }
+    }
+}
